@@ -170,16 +170,26 @@ func (e *eofEval) decide(fn *ssa.Function, cond ssa.Value, lexer bool) int {
 		}
 		// error of a callee that always fails at exhausted input
 		if strings.HasSuffix(t, " == nil)") {
-			if call := errSourceCall(cond); call != nil {
+			// (a merged error `stmts, err = a()` / `stmts, err = b()` fails when every alternative does)
+			calls := errSourceCalls(cond)
+			all := len(calls) > 0
+			for _, call := range calls {
+				okc := false
 				if f := callee(call); f != nil && e.c.W.InRepo(f) {
 					if f.Name() == "expectPeek" {
 						if s, ok := strConst(call.Common().Args[1]); ok && s != "EOF" {
-							res = 0
+							okc = true
 						}
 					} else if e.errorsAtEOF(f) {
-						res = 0
+						okc = true
 					}
 				}
+				if !okc {
+					all = false
+				}
+			}
+			if all {
+				res = 0
 			}
 		}
 	}
@@ -187,6 +197,33 @@ func (e *eofEval) decide(fn *ssa.Function, cond ssa.Value, lexer bool) int {
 		res = 1 - res
 	}
 	return res
+}
+
+// errSourceCalls: cond is `err ==/!= nil` where err comes from a call or from a merge of
+// call results; return the calls (nil when some alternative is not a call result).
+func errSourceCalls(cond ssa.Value) []ssa.CallInstruction {
+	bo, ok := cond.(*ssa.BinOp)
+	if !ok {
+		return nil
+	}
+	v := bo.X
+	if isNilConst(v) {
+		v = bo.Y
+	}
+	var leaves []ssa.Value
+	phiLeaves(v, map[ssa.Value]bool{}, &leaves)
+	var out []ssa.CallInstruction
+	for _, lf := range leaves {
+		if ex, ok := lf.(*ssa.Extract); ok {
+			lf = ex.Tuple
+		}
+		call, ok := lf.(*ssa.Call)
+		if !ok {
+			return nil
+		}
+		out = append(out, call)
+	}
+	return out
 }
 
 // errSourceCall: cond is `err ==/!= nil` where err comes from a call; return the call.
